@@ -28,7 +28,7 @@ tvars == <<tr, l, st>>
 
 Abs == INSTANCE LabRunAbs WITH
   cfg <- st.cfg, phase <- st.phase, exc <- st.exc, subCount <- st.subCount, viaCache <- st.viaCache,
-  slot <- st.slot, inrun <- st.inrun, runCount <- st.runCount, loadCount <- st.loadCount,
+  slot <- st.slot, inrun <- st.inrun, nslot <- st.nslot, nrun <- st.nrun, runCount <- st.runCount, loadCount <- st.loadCount,
   fin <- st.fin, done <- st.done, died <- st.died, held <- st.held, captured <- st.captured,
   dig <- st.dig, reads <- st.reads, atrest <- st.atrest, intCount <- st.intCount,
   outKeys <- st.outKeys, outVals <- st.outVals, lateStart <- st.lateStart, idlePolls <- st.idlePolls,
@@ -44,6 +44,7 @@ InT(t) == t \in TasksOf(st.cfg)
 Init0(c) ==
   [cfg |-> c, phase |-> "running", exc |-> <<>>,
    subCount |-> [t \in TasksOf(c) |-> 0], viaCache |-> {}, slot |-> {}, inrun |-> {},
+   nslot |-> [t \in TasksOf(c) |-> 0], nrun |-> [t \in TasksOf(c) |-> 0],
    runCount |-> [t \in TasksOf(c) |-> 0], loadCount |-> [t \in TasksOf(c) |-> 0],
    fin |-> [t \in TasksOf(c) |-> "none"], done |-> [t \in TasksOf(c) |-> "none"], died |-> {},
    held |-> {}, captured |-> {}, dig |-> [t \in TasksOf(c) |-> <<>>], reads |-> {},
@@ -69,6 +70,7 @@ EnvFacts(e) ==
   \cup (IF e.ctx # st.cfg.ctxkeys[e.t] THEN {<<e.t, "context-not-filtered-as-declared">>} ELSE {})
 
 Quiet(s) == [s EXCEPT !.atrest = FALSE]
+Dec(n) == IF n > 0 THEN n - 1 ELSE 0
 
 Apply(e) ==
   LET s == Quiet(st)  k == e.e IN
@@ -77,10 +79,10 @@ Apply(e) ==
                    !.viaCache = IF e.uc = 1 THEN @ \cup {e.t} ELSE @,
                    !.subSeq = Append(@, e.t)]
     [] k = "pstart" ->
-         [s EXCEPT !.slot = @ \cup {e.t},
+         [s EXCEPT !.slot = @ \cup {e.t}, !.nslot = [@ EXCEPT ![e.t] = @ + 1],
                    !.lateStart = @ \/ st.phase # "running"]
     [] k = "rbegin" ->
-         [s EXCEPT !.inrun = @ \cup {e.t},
+         [s EXCEPT !.inrun = @ \cup {e.t}, !.nrun = [@ EXCEPT ![e.t] = @ + 1],
                    !.runCount = [@ EXCEPT ![e.t] = @ + 1],
                    !.lateStart = @ \/ st.phase # "running",
                    !.envok = @ \cup EnvFacts(e),
@@ -88,28 +90,28 @@ Apply(e) ==
     [] k = "dread" ->
          [s EXCEPT !.reads = @ \cup {[t |-> e.t, d |-> e.d, ok |-> (e.ok = 1), v |-> e.v]}]
     [] k = "rend" ->
-         [s EXCEPT !.inrun = @ \ {e.t},
+         [s EXCEPT !.inrun = @ \ {e.t}, !.nrun = [@ EXCEPT ![e.t] = Dec(@)],
                    !.dig = IF e.ok = 1 THEN [@ EXCEPT ![e.t] = e.v] ELSE @]
     [] k = "load" ->
          [s EXCEPT !.loadCount = [@ EXCEPT ![e.t] = @ + 1],
                    !.dig = IF e.ok = 1 THEN [@ EXCEPT ![e.t] = e.v] ELSE @,
                    !.names = IF "pname" \in DOMAIN e /\ @[e.t] = "" THEN [@ EXCEPT ![e.t] = e.pname] ELSE @]
     [] k = "w_die" ->
-         [s EXCEPT !.died = @ \cup {e.t}, !.inrun = @ \ {e.t}]
+         [s EXCEPT !.died = @ \cup {e.t}, !.inrun = @ \ {e.t}, !.nrun = [@ EXCEPT ![e.t] = Dec(@)]]
     [] k = "w_term" ->
-         [s EXCEPT !.inrun = @ \ {e.t}]
+         [s EXCEPT !.inrun = @ \ {e.t}, !.nrun = [@ EXCEPT ![e.t] = Dec(@)]]
     [] k = "sample" ->
          [s EXCEPT !.atrest = TRUE]
     [] k = "rest" ->        \* the coordinator blocks on the empty result queue with a positive timeout
          [s EXCEPT !.atrest = TRUE]
     [] k = "consume" ->
-         [s EXCEPT !.slot = @ \ {e.t},
+         [s EXCEPT !.slot = @ \ {e.t}, !.nslot = [@ EXCEPT ![e.t] = Dec(@)],
                    !.fin = [@ EXCEPT ![e.t] = IF @ = "none" THEN (IF e.ok = 1 THEN "ok" ELSE "fail") ELSE @]]
     [] k = "died" ->      \* the code *declares* the worker dead; whether it really died is the environment's word (w_die)
-         [s EXCEPT !.slot = @ \ {e.t},
+         [s EXCEPT !.slot = @ \ {e.t}, !.nslot = [@ EXCEPT ![e.t] = Dec(@)],
                    !.fin = [@ EXCEPT ![e.t] = IF @ = "none" THEN "fail" ELSE @]]
     [] k = "exec_stop" ->
-         [s EXCEPT !.slot = @ \ {e.t}]
+         [s EXCEPT !.slot = @ \ {e.t}, !.nslot = [@ EXCEPT ![e.t] = Dec(@)]]
     [] k = "complete" ->
          [s EXCEPT !.done = [@ EXCEPT ![e.t] = IF e.ok = 1 THEN "ok" ELSE "fail"],
                    !.held = SetOf(e.held)]
@@ -122,7 +124,9 @@ Apply(e) ==
     [] k = "int" ->
          [s EXCEPT !.intCount = @ + 1,
                    !.slot = IF st.cfg.backend = "serial" THEN {} ELSE @,
-                   !.inrun = IF st.cfg.backend = "serial" THEN {} ELSE @]
+                   !.nslot = IF st.cfg.backend = "serial" THEN [t \in DOMAIN @ |-> 0] ELSE @,
+                   !.inrun = IF st.cfg.backend = "serial" THEN {} ELSE @,
+                   !.nrun = IF st.cfg.backend = "serial" THEN [t \in DOMAIN @ |-> 0] ELSE @]
     [] k = "outcome" ->
          [s EXCEPT !.phase = IF e.kind = "return" THEN "returned" ELSE "raised",
                    !.exc = IF e.kind = "return" THEN <<>> ELSE <<e.exc, e.cause>>,
